@@ -1428,6 +1428,11 @@ impl Function {
                 instruction.id,
                 current_frame.borrow().size(),
                 context.stack_size(),
+                if context.stack_size() > 0 {
+                    context.get_last_op_item()
+                } else {
+                    None
+                },
             );
 
             // queries the function pointer associated with the instruction,
